@@ -547,66 +547,188 @@ theorem operatorDoc_ok (o : BinOp) :
   refine ⟨⟨trivial, trivial, trivial⟩, ?_⟩
   cases o <;> decide
 
-/-- **The document of an expression has agreeing `Union`s and its content is exactly the printed
-comment/token sequence** (comments with their delimiters, operators, parentheses where the printer
-decides to keep them). -/
-theorem docOf_ok (e : AExpr) :
-    Agree commentKey (docOf e) ∧ val commentKey (docOf e) = (printA e).flatMap itemChars := by
-  induction e with
-  | atom cs name =>
-    have h := optPreceding_ok cs (.nstext name) trivial
-    refine ⟨h.1, ?_⟩
-    rw [docOf, h.2]
-    simp [printA, comments_chars, itemChars, val, commentKey]
-  | unary cs u e ih =>
-    have hs := subDoc_ok (e.prec ≥ 2) (docOf e) ih.1
-    have hu : commentKey.text (uopStr u) = nonWs (uopStr u) := by cases u <;> decide
-    have hm : Agree commentKey (.concat (.text (uopStr u)) (if e.prec ≥ 2 then parenDoc (docOf e) else docOf e)) :=
-      ⟨trivial, hs.1⟩
+/-- Non-whitespace characters of a printed item sequence. -/
+def items (xs : List Item) : Str := xs.flatMap itemChars
+
+theorem items_append (a b : List Item) : items (a ++ b) = items a ++ items b := by simp [items]
+
+theorem items_wrapP (c : Prop) [Decidable c] (xs : List Item) :
+    items (wrapP (decide c) xs) = (if c then ['('] else []) ++ items xs ++ (if c then [')'] else []) :=
+  wrapP_chars c xs
+
+theorem unaryDoc_ok (cs : List Comment) (u : UOp) (p : Nat) (d : Doc) (xs : List Item)
+    (hd : Agree commentKey d) (hv : val commentKey d = items xs) :
+    Agree commentKey (unaryDoc cs u p d) ∧ val commentKey (unaryDoc cs u p d) = items (unaryItems cs u p xs) := by
+  have hs := subDoc_ok (p ≥ 2) d hd
+  have hu : commentKey.text (uopStr u) = nonWs (uopStr u) := by cases u <;> decide
+  have hm : Agree commentKey (.concat (.text (uopStr u)) (if p ≥ 2 then parenDoc d else d)) := ⟨trivial, hs.1⟩
+  have h := optPreceding_ok cs _ hm
+  refine ⟨h.1, ?_⟩
+  simp only [unaryDoc, h.2, val, hs.2, hu, hv, unaryItems, items, List.flatMap_append, comments_chars,
+    wrapP_chars, List.flatMap_cons, List.flatMap_nil, itemChars, List.append_nil, List.append_assoc]
+
+theorem binaryDoc_ok (cs : List Comment) (o : BinOp) (ocs : List Comment) (l r : AExpr) (dl dr : Doc)
+    (xl xr : List Item) (hl : Agree commentKey dl) (hvl : val commentKey dl = items xl)
+    (hr : Agree commentKey dr) (hvr : val commentKey dr = items xr) :
+    Agree commentKey (binaryDoc cs o ocs l r dl dr) ∧
+      val commentKey (binaryDoc cs o ocs l r dl dr) = items (binaryItems cs o ocs l r xl xr) := by
+  have hsl := subDoc_ok (l.prec ≥ 4 + o.pprec) dl hl
+  have hsr := subDoc_ok (r.prec ≥ 4 + o.pprec) dr hr
+  have hpl := parenDoc_ok dl hl
+  have hoc := opCommentsDoc_ok ocs
+  have hop := operatorDoc_ok o
+  have hwt : ∀ xs : List Item, (wrapP true xs).flatMap itemChars = ['('] ++ xs.flatMap itemChars ++ [')'] := by
+    intro xs; simpa using wrapP_chars True xs
+  by_cases h1 : o = .lt ∧ endsMember l = true
+  · simp only [binaryDoc, binaryItems, if_pos h1]
+    have hm : Agree commentKey (concatV ([parenDoc dl] ++ [opCommentsDoc ocs, operatorDoc o] ++
+        [if r.prec ≥ 4 + o.pprec then parenDoc dr else dr])) := ⟨hpl.1, hoc.1, hop.1, hsr.1⟩
     have h := optPreceding_ok cs _ hm
-    refine ⟨by simpa [docOf] using h.1, ?_⟩
-    simp only [docOf, h.2, val, hs.2, hu, printA, List.flatMap_append, comments_chars, wrapP_chars, ih.2,
+    refine ⟨h.1, ?_⟩
+    rw [h.2]
+    simp only [List.singleton_append, List.cons_append, List.nil_append, concatV, val, hpl.2, hoc.2, hop.2,
+      hsl.2, hsr.2, hvl, hvr, items, wrapP_chars, hwt, List.flatMap_append, comments_chars,
       List.flatMap_cons, List.flatMap_nil, itemChars, List.append_nil, List.append_assoc]
-  | binary cs o ocs l r ihl ihr =>
-    have hsl := subDoc_ok (l.prec ≥ 4 + o.pprec) (docOf l) ihl.1
-    have hsr := subDoc_ok (r.prec ≥ 4 + o.pprec) (docOf r) ihr.1
-    have hoc := opCommentsDoc_ok ocs
-    have hop := operatorDoc_ok o
-    have hvl := hsl.2
-    have hvr := hsr.2
-    have hal := hsl.1
-    have har := hsr.1
-    simp only [docOf, printA]
-    split
-    · have hm : Agree commentKey (concatV ([docOf l] ++ [opCommentsDoc ocs, operatorDoc o] ++
-          [if r.prec ≥ 4 + o.pprec then parenDoc (docOf r) else docOf r])) :=
-        ⟨ihl.1, hoc.1, hop.1, har⟩
+  · by_cases h2 : l.prec = 4 + o.pprec
+    · simp only [binaryDoc, binaryItems, if_neg h1, if_pos h2]
+      have hm : Agree commentKey (concatV ([dl] ++ [opCommentsDoc ocs, operatorDoc o] ++
+          [if r.prec ≥ 4 + o.pprec then parenDoc dr else dr])) := ⟨hl, hoc.1, hop.1, hsr.1⟩
       have h := optPreceding_ok cs _ hm
       refine ⟨h.1, ?_⟩
       rw [h.2]
-      simp only [List.singleton_append, List.cons_append, List.nil_append, concatV, val, ihl.2, hoc.2, hop.2, hvr,
-        List.flatMap_append, comments_chars, wrapP_chars, ihr.2, List.flatMap_cons, List.flatMap_nil,
-        itemChars, List.append_nil, List.append_assoc]
-    · split
-      · have hm : Agree commentKey (concatV ([if l.prec ≥ 4 + o.pprec then parenDoc (docOf l) else docOf l] ++
-            [opCommentsDoc ocs, operatorDoc o] ++ [docOf r])) :=
-          ⟨hal, hoc.1, hop.1, ihr.1⟩
+      simp only [List.singleton_append, List.cons_append, List.nil_append, concatV, val, hpl.2, hoc.2, hop.2,
+      hsl.2, hsr.2, hvl, hvr, items, wrapP_chars, hwt, List.flatMap_append, comments_chars,
+      List.flatMap_cons, List.flatMap_nil, itemChars, List.append_nil, List.append_assoc]
+    · by_cases h3 : r.prec = 4 + o.pprec ∧ shortcutOkA o r = true
+      · simp only [binaryDoc, binaryItems, if_neg h1, if_neg h2, if_pos h3]
+        have hm : Agree commentKey (concatV ([if l.prec ≥ 4 + o.pprec then parenDoc dl else dl] ++
+            [opCommentsDoc ocs, operatorDoc o] ++ [dr])) := ⟨hsl.1, hoc.1, hop.1, hr⟩
         have h := optPreceding_ok cs _ hm
         refine ⟨h.1, ?_⟩
         rw [h.2]
-        simp only [List.singleton_append, List.cons_append, List.nil_append, concatV, val, ihl.2, hoc.2, hop.2, hvl,
-          List.flatMap_append, comments_chars, wrapP_chars, ihr.2, List.flatMap_cons, List.flatMap_nil,
-          itemChars, List.append_nil, List.append_assoc]
-      · have hm : Agree commentKey (concatV ([if l.prec ≥ 4 + o.pprec then parenDoc (docOf l) else docOf l] ++
+        simp only [List.singleton_append, List.cons_append, List.nil_append, concatV, val, hpl.2, hoc.2, hop.2,
+      hsl.2, hsr.2, hvl, hvr, items, wrapP_chars, hwt, List.flatMap_append, comments_chars,
+      List.flatMap_cons, List.flatMap_nil, itemChars, List.append_nil, List.append_assoc]
+      · simp only [binaryDoc, binaryItems, if_neg h1, if_neg h2, if_neg h3]
+        have hm : Agree commentKey (concatV ([if l.prec ≥ 4 + o.pprec then parenDoc dl else dl] ++
             [opCommentsDoc ocs, operatorDoc o] ++
-            [if r.prec ≥ 4 + o.pprec then parenDoc (docOf r) else docOf r])) :=
-          ⟨hal, hoc.1, hop.1, har⟩
+            [if r.prec ≥ 4 + o.pprec then parenDoc dr else dr])) := ⟨hsl.1, hoc.1, hop.1, hsr.1⟩
         have h := optPreceding_ok cs _ hm
         refine ⟨h.1, ?_⟩
         rw [h.2]
-        simp only [List.singleton_append, List.cons_append, List.nil_append, concatV, val, ihl.2, hoc.2, hop.2, hvl,
-          hvr, List.flatMap_append, comments_chars, wrapP_chars, ihr.2, List.flatMap_cons,
-          List.flatMap_nil, itemChars, List.append_nil, List.append_assoc]
+        simp only [List.singleton_append, List.cons_append, List.nil_append, concatV, val, hpl.2, hoc.2, hop.2,
+      hsl.2, hsr.2, hvl, hvr, items, wrapP_chars, hwt, List.flatMap_append, comments_chars,
+      List.flatMap_cons, List.flatMap_nil, itemChars, List.append_nil, List.append_assoc]
+
+theorem items_join (xs : List (List Item)) : items (argsItems.join xs) = joinC (xs.map items) := by
+  induction xs with
+  | nil => rfl
+  | cons x rest ih =>
+    cases rest with
+    | nil => simp [argsItems.join, joinC]
+    | cons y ys =>
+      have h1 : itemChars (.tok [',']) = [','] := by decide
+      simp only [argsItems.join, items_append, ih, List.map_cons, joinC]
+      simp [items, h1]
+
+theorem items_argsItems (scs : List Comment) (xs : List (List Item)) (ecs : List Comment) :
+    items (argsItems scs xs ecs) =
+      scs.flatMap commentChars ++ (['('] ++ (joinC (xs.map items) ++
+        (if ecs.isEmpty then [] else (if xs.isEmpty then [] else [',']) ++ ecs.flatMap commentChars)) ++ [')']) := by
+  have h1 : itemChars (.tok [',']) = [','] := by decide
+  have h2 : itemChars (.tok ['(']) = ['('] := by decide
+  have h3 : itemChars (.tok [')']) = [')'] := by decide
+  simp only [argsItems, items_append, items_join]
+  by_cases he : ecs.isEmpty = true <;> by_cases hx : xs.isEmpty = true <;>
+    simp [items, he, hx, h1, h2, h3, comments_chars, List.append_assoc]
+
+theorem IRok_base (d : Doc) (h : Agree commentKey d) : IRok (d, []) := ⟨h, by simp⟩
+
+/-- The three mutually recursive functions of the model (`docOf` / `chainIR` / `argDocs`) against
+their item counterparts. -/
+theorem docOf_chain_args_ok (e : AExpr) :
+    (Agree commentKey (docOf e) ∧ val commentKey (docOf e) = items (printA e)) ∧
+    (IRok (chainIR e) ∧ chainVal (chainIR e) = items (chainItems e)) ∧
+    ((∀ d ∈ argDocs e, Agree commentKey d) ∧ (argDocs e).map (val commentKey) = (argItems e).map items) := by
+  have hwt : ∀ xs, items (wrapP true xs) = ['('] ++ items xs ++ [')'] := by
+    intro xs; simpa using items_wrapP True xs
+  induction e with
+  | atom cs name =>
+    have h := optPreceding_ok cs (.nstext name) trivial
+    have hv : val commentKey (SamVerif.Imports.optPreceding cs (.nstext name)) =
+        items (cs.map .comment ++ [.tok name]) := by
+      rw [h.2]; simp [items, comments_chars, itemChars, val, commentKey]
+    exact ⟨⟨h.1, by simpa [docOf, printA] using hv⟩,
+      ⟨by simpa [chainIR] using IRok_base _ h.1, by simpa [chainIR, chainItems, chainVal] using hv⟩,
+      ⟨by simp [argDocs], rfl⟩⟩
+  | unary cs u e ih =>
+    have h := unaryDoc_ok cs u e.prec (docOf e) (printA e) ih.1.1 ih.1.2
+    have hp := parenDoc_ok _ h.1
+    refine ⟨by simpa [docOf, printA] using h, ⟨by simpa [chainIR] using IRok_base _ hp.1, ?_⟩,
+      ⟨by simp [argDocs], rfl⟩⟩
+    simp [chainIR, chainItems, chainVal, hp.2, h.2, hwt]
+  | binary cs o ocs l r ihl ihr =>
+    have h := binaryDoc_ok cs o ocs l r (docOf l) (docOf r) (printA l) (printA r)
+      ihl.1.1 ihl.1.2 ihr.1.1 ihr.1.2
+    have hp := parenDoc_ok _ h.1
+    refine ⟨by simpa [docOf, printA] using h, ⟨by simpa [chainIR] using IRok_base _ hp.1, ?_⟩,
+      ⟨by simp [argDocs], rfl⟩⟩
+    simp [chainIR, chainItems, chainVal, hp.2, h.2, hwt]
+  | field cs obj ncs name ih =>
+    have hx := extendField_ok (chainIR obj) ncs name ih.2.1.1
+    have hd := dottedChain_ok _ hx.1
+    have ho := optPreceding_ok cs _ hd.1
+    have h1 : nonWs ['.'] = ['.'] := by decide
+    have hcv : chainVal (extendField (chainIR obj) ncs name) =
+        items (chainItems obj ++ ncs.map .comment ++ [.tok ['.'], .tok name]) := by
+      rw [hx.2, ih.2.1.2]
+      simp [items, comments_chars, itemChars, h1, List.append_assoc]
+    refine ⟨⟨by simpa [docOf] using ho.1, ?_⟩, ⟨by simpa [chainIR] using hx.1, by simpa [chainIR, chainItems] using hcv⟩,
+      ⟨by simp [argDocs], rfl⟩⟩
+    simp only [docOf, printA, ho.2, hd.2, hcv]
+    simp [items, comments_chars, List.append_assoc]
+  | call cs callee scs args ecs ihc iha =>
+    have had := argsDoc_ok scs (argDocs args) ecs iha.2.2.1
+    have hx := extendCall_ok (chainIR callee) _ ihc.2.1.1 had.1
+    have hd := dottedChain_ok _ hx.1
+    have ho := optPreceding_ok cs _ hd.1
+    have hlen : (argDocs args).isEmpty = (argItems args).isEmpty := by
+      have := congrArg List.length iha.2.2.2
+      simp only [List.length_map] at this
+      cases h1 : argDocs args <;> cases h2 : argItems args <;> simp_all
+    have hcv : chainVal (extendCall (chainIR callee) (argsDoc scs (argDocs args) ecs)) =
+        items (chainItems callee ++ argsItems scs (argItems args) ecs) := by
+      rw [hx.2, ihc.2.1.2, had.2, items_append, items_argsItems, iha.2.2.2, hlen]
+    refine ⟨⟨by simpa [docOf] using ho.1, ?_⟩, ⟨by simpa [chainIR] using hx.1, by simpa [chainIR, chainItems] using hcv⟩,
+      ⟨by simp [argDocs], rfl⟩⟩
+    simp only [docOf, printA, ho.2, hd.2, hcv]
+    simp [items, comments_chars, List.append_assoc]
+  | argsNil =>
+    exact ⟨⟨trivial, rfl⟩, ⟨⟨trivial, by simp [chainIR]⟩, rfl⟩, ⟨by simp [argDocs], rfl⟩⟩
+  | argsCons e rest ihe ihr =>
+    refine ⟨⟨trivial, rfl⟩, ⟨⟨trivial, by simp [chainIR]⟩, rfl⟩, ⟨?_, ?_⟩⟩
+    · intro d hd
+      simp only [argDocs, List.mem_cons] at hd
+      rcases hd with rfl | hd
+      · exact ihe.1.1
+      · exact ihr.2.2.1 d hd
+    · simp only [argDocs, argItems, List.map_cons, ihe.1.2, ihr.2.2.2]
+
+/-- **The document of an expression has agreeing `Union`s and its content is exactly the printed
+comment/token sequence** — identifiers, literals, unary and binary expressions, member access, calls
+and whole dotted chains (all three layouts of `create_doc_for_dotted_chain`), argument lists with
+their start / ending comments, parentheses where the printer keeps them. -/
+theorem docOf_ok (e : AExpr) :
+    Agree commentKey (docOf e) ∧ val commentKey (docOf e) = (printA e).flatMap itemChars :=
+  (docOf_chain_args_ok e).1
+
+/-- A latent gap of `create_chainable_ir_docs`, mirrored by the model: the comments stored on an
+*inner* node of a dotted chain are never printed. The parser cannot produce such a tree (since fix
+a0babc7 it attaches comments to the node owning the first token; protocol `exprdoc` checks on every
+run that inner chain nodes of real parses carry no comments), so no input loses a comment here. -/
+theorem inner_chain_comment_not_printed (c : Comment) (a f g : Str) :
+    printA (.field [] (.field [c] (.atom [] a) [] f) [] g) =
+      printA (.field [] (.field [] (.atom [] a) [] f) [] g) := rfl
 
 /-- **For every width, the laid-out expression consists of exactly its comments and tokens**, in
 print order (whitespace and repeated comment leaders aside): the layout engine and the document
